@@ -8,6 +8,7 @@
 //! sossim run-plan <plan.json> <dir>                    (child)
 
 mod acct;
+mod authw;
 mod common;
 mod crash;
 mod device;
@@ -17,6 +18,7 @@ mod net;
 mod netoracle;
 mod netw;
 mod oracles;
+mod plainscan;
 mod tamper;
 mod registry;
 mod rng;
